@@ -578,9 +578,47 @@ def _aipsw_dr_cases(ctx, fails, cases, fixed):
 
 
 # ------------------------------------------------------------------------------------------------ entry points
+def arm_part(ctx, fails):
+    """sampled rows that belong to NEITHER arm of the contrast (treatment not recorded, or a third arm coded 2) count for the
+    sampling model only: the two risks are the weighted means over the rows with A == 1 and over the rows with A == 0 (the arm
+    definition of the model, Base.Rows.arm), with the weights the object exposes"""
+    from zepid.causal.generalize import IPSW
+    for i in range(3 if ctx.quick else 20):
+        df, meta = make_frame(ctx.rng, outcome='binary')
+        extra = df[df['S'] == 1].sample(n=max(2, int((df['S'] == 1).sum()) // 4), random_state=i)
+        extra = extra.copy()
+        extra['A'] = [float('nan'), 2.0][i % 2]
+        d = pd.concat([df, extra], ignore_index=True)
+        payload = {'part': 'arms', 'frame': {c: [None if (isinstance(v, float) and v != v) else v for v in d[c].tolist()] for c in d.columns}}
+        ctx.evaluations += 1
+        ctx.count('arms: sampled rows outside the contrast (%s)' % ('unrecorded treatment' if i % 2 == 0 else 'third arm'))
+        for gen in (True, False):
+            for stab in (True, False):
+                try:
+                    e = IPSW(d, exposure='A', outcome='Y', selection='S', generalize=gen)
+                    e.sampling_model(meta['sat_W'], stabilized=stab, print_results=False)
+                    e.fit()
+                    smp = e.sample
+                    w = np.asarray(e.ipsw, dtype=float)
+                    y = np.asarray(smp['Y'], dtype=float)
+                    a = np.asarray(smp['A'], dtype=float)
+                    r1 = float(np.sum(w[a == 1] * y[a == 1]) / np.sum(w[a == 1]))
+                    r0 = float(np.sum(w[a == 0] * y[a == 0]) / np.sum(w[a == 0]))
+                except Exception as ex:   # noqa
+                    fails.append((len(d), 'IPSW.arms.raises', 'IPSW with sampled rows outside the contrast raised %s: %s' % (type(ex).__name__, str(ex)[:100]), payload))
+                    continue
+                ctx.programs += 1
+                ctx.disagreements_checked += 1
+                if not (rel_close(float(e.risk_difference), r1 - r0, 1e-9) and rel_close(float(e.risk_ratio), r1 / r0, 1e-9)):
+                    fails.append((len(d), 'IPSW.arms.not-the-two-arms', 'IPSW(generalize=%s, stabilized=%s): RD=%r RR=%r, but the weighted risks of the '
+                                  'rows with A==1 and of the rows with A==0 give RD=%r RR=%r (%d sampled rows belong to neither arm)'
+                                  % (gen, stab, float(e.risk_difference), float(e.risk_ratio), r1 - r0, r1 / r0, len(extra)), payload))
+
+
 def run(ctx):
     fails = []
     std_part(ctx, fails)
+    arm_part(ctx, fails)
     report(ctx, fails)
 
 
@@ -608,4 +646,5 @@ def replay(ctx, payload):
             std_part(ctx, fails, cases=[(0, clean, d, meta)])
     else:
         std_part(ctx, fails)
+    arm_part(ctx, fails)
     report(ctx, fails)
